@@ -243,7 +243,9 @@ def expand (B : Nat) (A : CRS (Blk K)) : CRS K :=
       (A.row (q.val / B)).flatMap (fun cv => (List.range B).map (fun s => (cv.1 * B + s, cv.2.getD ((q.val % B) * B + s) 0)))) }
 
 /-- `init(K, bprm, false_type)`: block-valued input with `n` block rows, `N = active_rows ? active_rows : n`
-(in BLOCK rows); `AS` is kept in expanded scalar form (block residual = scalar residual of the expansion). -/
+(in BLOCK rows); `AS` is kept in expanded scalar form (block residual = scalar residual of the expansion).
+Columns outside the active range are dropped from `App` (fix 912e27f; before it the whole pattern of the active
+block rows was copied, giving out-of-range columns). -/
 def initBlock (A : CRS (Blk K)) (B activeRows : Nat) : State K :=
   let n := A.nrows
   let N := if activeRows = 0 then n else activeRows
@@ -253,9 +255,9 @@ def initBlock (A : CRS (Blk K)) (B activeRows : Nat) : State K :=
     Fpp := fppOf B np (np * B) (fun i => (bw i).1),
     Scatter := scatterOf B (np * B) np,
     App := { ncols := np,
-             rows := Array.ofFn (n := np) (fun i => (A.row i.val).map (fun cv =>
+             rows := Array.ofFn (n := np) (fun i => ((A.row i.val).filter (fun cv => decide (cv.1 < np))).map (fun cv =>
                (cv.1, (List.range B).foldl (fun a k => a + ((bw i.val).1).getD k 0 * cv.2.getD (k * B) 0) 0))) },
-    appWidths := (List.range np).map (fun i => (A.row i).length),
+    appWidths := (List.range np).map (fun i => ((A.row i).filter (fun cv => decide (cv.1 < np))).length),
     AS := expand B A,
     uninit := (List.range np).any (fun i => (bw i).2.1),
     zeroPivot := (List.range np).any (fun i => (bw i).2.2) }
